@@ -63,6 +63,14 @@ func c11envelope(t *simrt.Tape) string {
 func c11line(t *simrt.Tape, tags []string) string {
 	n := func() string { return c11nums[t.Choose(len(c11nums))] }
 	small := func() string { return fmt.Sprint(1 + t.Choose(9)) }
+	// mostly valid: lines with many numbers would otherwise almost never be well formed, and a well-formed
+	// response arriving at an unexpected moment is hostile too
+	nv := func() string {
+		if t.Choose(6) == 0 {
+			return n()
+		}
+		return fmt.Sprint(t.Choose(50))
+	}
 	switch t.Choose(35) {
 	case 32, 33, 34:
 		// a literal announcing an enormous size in a position where the client buffers the string; the data never comes
@@ -112,7 +120,7 @@ func c11line(t *simrt.Tape, tags []string) string {
 	case 6:
 		return `* LIST () NIL INBOX`
 	case 7:
-		return "* STATUS box" + small() + " (MESSAGES " + n() + " UIDNEXT " + n() + " UIDVALIDITY " + n() + " UNSEEN " + n() + " SIZE " + n() + " DELETED " + n() + ")"
+		return "* STATUS box" + small() + " (MESSAGES " + nv() + " UIDNEXT " + nv() + " UIDVALIDITY " + nv() + " UNSEEN " + nv() + " SIZE " + nv() + " DELETED " + nv() + ")"
 	case 8, 9:
 		s := "* SEARCH"
 		for i, k := 0, t.Choose(5); i < k; i++ {
@@ -134,7 +142,7 @@ func c11line(t *simrt.Tape, tags []string) string {
 	case 13:
 		return "* THREAD (2)(3 6 (4 23)(44 7 96))" + []string{"", "(" + n() + ")", "((1)(2))"}[t.Choose(3)]
 	case 14:
-		return `* QUOTA "root" (STORAGE ` + n() + " " + n() + " MESSAGE 1 2)"
+		return `* QUOTA "root" (STORAGE ` + nv() + " " + nv() + " MESSAGE 1 2)"
 	case 15:
 		return `* QUOTAROOT INBOX "root" "other"`
 	case 16:
